@@ -364,6 +364,26 @@ class SelectorWorld:
                     # C06/C08: a continuation is in the domain iff it is given the same
                     # *values* (possibly in another array object) - decided by op_FIT
 
+    def op_FORK(self, op, i):
+        """The caller takes a shallow copy of a fitted selector (copy.copy) and keeps using
+        both: the copy shares the fitted arrays with the original, so a continuation of one
+        must not write into them."""
+        src, name = op["from"], op["obj"]
+        obj = self.objs.get(src)
+        m = self.meta.get(src)
+        if obj is None or m is None or m["retired"] or m["ok_fits"] == 0 or m.get("retired_for_warm"):
+            self.objs[name] = None
+            self.meta[name] = dict(m or {}, retired=True) if m else {"retired": True, "cls": None, "ok_fits": 0}
+            return
+        self.objs[name] = copy.copy(obj)
+        m2 = dict(m)
+        m2["params"] = dict(m["params"])
+        m2["resolved"] = dict(m["resolved"])
+        m2["history"] = list(m["history"])
+        self.meta[name] = m2
+        self.stats["fired"]["restart:shallow_copy_fork"] += 1
+        self.log.add("FORK", src, name)
+
     def op_RESTART(self, op, i):
         name = op["obj"]
         obj = self.objs.get(name)
@@ -434,11 +454,11 @@ class SelectorWorld:
                         # event of this fit; the partially fitted object stays in the process
                         excs = {"KeyboardInterrupt": InjectedInterrupt, "MemoryError": InjectedMemoryError}[itr["exc"]]
                         with self.env.interrupter.armed(int(itr["at"]), excs) as arm:
-                            ret = obj.fit(X, y, warm_start=True) if warm else obj.fit(X, y)
+                            ret = obj.fit(X, y, warm_start=_warm_form(op)) if warm else obj.fit(X, y)
                         if not arm.fired:
                             self.count("interrupt_not_reached")
                     elif warm:
-                        ret = obj.fit(X, y, warm_start=True)
+                        ret = obj.fit(X, y, warm_start=_warm_form(op))
                     else:
                         ret = obj.fit(X, y)
                     rec.ret_is_self = ret is obj
@@ -1189,6 +1209,17 @@ class SelectorWorld:
             return gap < 1e-6
         except Exception:  # noqa: BLE001
             return True
+
+
+def _warm_form(op):
+    """warm_start=True in the forms callers use: the literal, a numpy boolean (the result
+    of a comparison on numpy data) or a truthy integer."""
+    f = op.get("warm_form")
+    if f == "np_bool":
+        return np.bool_(True)
+    if f == "int":
+        return 1
+    return True
 
 
 def _form(v):
